@@ -164,4 +164,49 @@ Section Tie.
     destruct (nle O (secs O (c + fw_wn s - now)) (n0 O)); cbn; [split; [reflexivity|exact H2]|].
     destruct (nanos O (secs O (c + fw_wn s - now)) =? 0); cbn; split; try reflexivity; exact H2.
   Qed.
+
+  (* ---------------- AdaptivePolicy (the token part: _refill / try_acquire / time_until_available) ---------------- *)
+  Definition ad_abs (s : AdaptivePolicy O) : ads O :=
+    {| ad_rate := AdaptivePolicy__current_rate O s; ad_tokens := AdaptivePolicy__tokens O s;
+       ad_last := AdaptivePolicy__last_refill_time O s |}.
+
+  Lemma tie_ad_refill (p : adp O) s now : ad_win p = AdaptivePolicy__window_size O s ->
+    let s' := fst (AdaptivePolicy__refill O s now) in
+    ad_abs s' = ad_refill O p (ad_abs s) now /\ AdaptivePolicy__window_size O s' = AdaptivePolicy__window_size O s.
+  Proof.
+    intros Hw. unfold AdaptivePolicy__refill, ad_refill, ad_abs. destruct s as [rate win tok [l|]]; cbn in *.
+    - destruct (nle O (secs O (now - l)) (n0 O)); cbn; split; try reflexivity. now rewrite Hw.
+    - split; reflexivity.
+  Qed.
+
+  Lemma tie_ad_acquire (p : adp O) s now : ad_win p = AdaptivePolicy__window_size O s ->
+    let r := AdaptivePolicy_try_acquire O s now in
+    (ad_abs (fst r), snd r) = ad_acquire O p (ad_abs s) now
+    /\ AdaptivePolicy__window_size O (fst r) = AdaptivePolicy__window_size O s.
+  Proof.
+    intros Hw. unfold AdaptivePolicy_try_acquire, ad_acquire. destruct (tie_ad_refill p s now Hw) as [H1 H2].
+    destruct (AdaptivePolicy__refill O s now) as [s1 u]; cbn [fst snd] in *. rewrite <- H1.
+    unfold ad_abs at 2 3; cbn [ad_tokens].
+    destruct (nle O (n1 O) (AdaptivePolicy__tokens O s1)); cbn; split; try reflexivity; exact H2.
+  Qed.
+
+  (** [time_until_available]: the code divides by the rate only when it is positive and otherwise uses
+      float("inf") (the extra parameter [inf]); the constructor guarantees min_rate > 0 and every rate
+      adjustment stays >= min_rate, so under a positive rate after the refill the value of [inf] is irrelevant. *)
+  Lemma tie_ad_tua (p : adp O) s now inf : ad_win p = AdaptivePolicy__window_size O s ->
+    nlt O (n0 O) (AdaptivePolicy__current_rate O s) = true ->
+    let r := AdaptivePolicy_time_until_available O s now inf in
+    (ad_abs (fst r), snd r) = ad_tua O p (ad_abs s) now
+    /\ AdaptivePolicy__window_size O (fst r) = AdaptivePolicy__window_size O s.
+  Proof.
+    intros Hw Hr. unfold AdaptivePolicy_time_until_available, ad_tua, guard. destruct (tie_ad_refill p s now Hw) as [H1 H2].
+    assert (Hrate : AdaptivePolicy__current_rate O (fst (AdaptivePolicy__refill O s now)) = AdaptivePolicy__current_rate O s).
+    { unfold AdaptivePolicy__refill. destruct s as [rate win tok [l|]]; cbn; [destruct (nle O _ _); reflexivity|reflexivity]. }
+    destruct (AdaptivePolicy__refill O s now) as [s1 u]; cbn [fst snd] in *. rewrite <- H1.
+    unfold ad_abs at 2 3 4; cbn [ad_tokens ad_rate].
+    destruct (nle O (n1 O) (AdaptivePolicy__tokens O s1)); cbn; [split; [reflexivity|exact H2]|].
+    rewrite Hrate, Hr.
+    destruct (nanos O _ =? 0); cbn; (split; [unfold ad_abs; rewrite ?Hrate; reflexivity|exact H2]).
+  Qed.
+
 End Tie.
